@@ -28,7 +28,7 @@ type emuEmitter struct {
 	alias   map[string]string // local -> location
 	methods map[string]*ast.FuncDecl
 	depth   int
-	deferU  bool
+	deferU  string // "" or the unlock action a deferred Unlock / RUnlock performs at every exit
 	ok      bool
 }
 
@@ -78,6 +78,10 @@ func (em *emuEmitter) accesses(e ast.Node, out *[]string) {
 						*out = append(*out, "Act ALock")
 					case "Unlock":
 						*out = append(*out, "Act AUnlock")
+					case "RLock":
+						*out = append(*out, "Act ARLock")
+					case "RUnlock":
+						*out = append(*out, "Act ARUnlock")
 					default:
 						em.ok = false
 						em.x.fail(em.item, "unsupported mutex operation %s", sel.Sel.Name)
@@ -188,8 +192,8 @@ func (em *emuEmitter) block(stmts []ast.Stmt) string {
 }
 
 func (em *emuEmitter) ret() string {
-	if em.deferU {
-		return "Seq (Act AUnlock) (Ret)"
+	if em.deferU != "" {
+		return "Seq (Act " + em.deferU + ") (Ret)"
 	}
 	return "Ret"
 }
@@ -338,8 +342,8 @@ func (em *emuEmitter) stmt(st ast.Stmt) string {
 			return "Skip"
 		}
 	case *ast.DeferStmt:
-		if sel, ok := x.Call.Fun.(*ast.SelectorExpr); ok && em.isMutex(sel.X) && sel.Sel.Name == "Unlock" {
-			em.deferU = true
+		if sel, ok := x.Call.Fun.(*ast.SelectorExpr); ok && em.isMutex(sel.X) && (sel.Sel.Name == "Unlock" || sel.Sel.Name == "RUnlock") {
+			em.deferU = "A" + sel.Sel.Name
 			return "Skip"
 		}
 	case *ast.GoStmt:
@@ -353,14 +357,14 @@ func (em *emuEmitter) method(fd *ast.FuncDecl) string {
 	// defer is method-wide: find it first
 	for _, st := range fd.Body.List {
 		if d, ok := st.(*ast.DeferStmt); ok {
-			if sel, ok := d.Call.Fun.(*ast.SelectorExpr); ok && em.isMutex(sel.X) && sel.Sel.Name == "Unlock" {
-				em.deferU = true
+			if sel, ok := d.Call.Fun.(*ast.SelectorExpr); ok && em.isMutex(sel.X) && (sel.Sel.Name == "Unlock" || sel.Sel.Name == "RUnlock") {
+				em.deferU = "A" + sel.Sel.Name
 			}
 		}
 	}
 	body := em.block(fd.Body.List)
-	if em.deferU {
-		body = "Seq (" + body + ") (Act AUnlock)"
+	if em.deferU != "" {
+		body = "Seq (" + body + ") (Act " + em.deferU + ")"
 	}
 	return body
 }
